@@ -54,7 +54,18 @@ static inline void hadd(hbuf *b, const void *s, size_t n) { if (n) hbuf_add(b, s
 static const unsigned char *in_p; static size_t in_n, in_pos; static int in_chunk;
 static hbuf replyb;
 
+/* (E) flush discipline: the events of a session on the two descriptors.  G<n> = n more reply bytes have been handed to
+ * ssout (observed lazily: at the next read / write / handler return), W<n> = write of n bytes, R<p> = read of the
+ * connection with p bytes still sitting in ssout's buffer, C<i> = handler i returned, F = its flush callback ran. */
+static hbuf evb; static size_t ev_totalw, ev_lastgen; static int ev_on;
+static void ev_log(char k, size_t v) { char t[32]; int l = snprintf(t, sizeof t, "%s%c%zu", evb.n ? "," : "", k, v); hadd(&evb, t, l); }
+static void ev_sync(size_t extra) {
+  if (!ev_on) return;
+  size_t g = (size_t)ssout.p + ev_totalw + extra;
+  if (g > ev_lastgen) { ev_log('G', g - ev_lastgen); ev_lastgen = g; }
+}
 ssize_t timeoutread(int t, int fd, char *buf, size_t len) {
+  if (ev_on) { ev_sync(0); ev_log('R', (size_t)ssout.p); }
   size_t k = in_n - in_pos;
   if (k > len) k = len;
   if (in_chunk > 0 && k > (size_t)in_chunk) k = in_chunk;
@@ -62,7 +73,10 @@ ssize_t timeoutread(int t, int fd, char *buf, size_t len) {
   in_pos += k;
   return k;
 }
-ssize_t timeoutwrite(int t, int fd, const void *buf, size_t len) { hadd(&replyb, buf, len); return len; }
+ssize_t timeoutwrite(int t, int fd, const void *buf, size_t len) {
+  if (ev_on) { ev_sync(len); ev_log('W', len); ev_totalw += len; }
+  hadd(&replyb, buf, len); return len;
+}
 
 static int qq_mode;               /* 0 queue accepts, 1 qmail_open fails, 2 permanent, 3 temporary */
 static int in_env;
@@ -90,7 +104,12 @@ unsigned long qmail_qp(struct qmail *qq) { return H_QP; }
 static hbuf callb; static int ncalls;            /* per call: index byte, argument, NUL */
 static void rec_call(int i, const char *arg) { unsigned char ix = (unsigned char)i; hadd(&callb, &ix, 1); hadd(&callb, arg, strlen(arg) + 1); ncalls++; }
 static void (*orig_fun[MAXTAB])();
-#define W(i) static void rec_##i(char *arg) { rec_call(i, arg); if (orig_fun[i]) orig_fun[i](arg); }
+static void (*orig_flush[MAXTAB])();
+#define WF(i) static void recf_##i(void) { if (orig_flush[i]) orig_flush[i](); if (ev_on) { ev_sync(0); ev_log('F', 0); } }
+WF(0) WF(1) WF(2) WF(3) WF(4) WF(5) WF(6) WF(7) WF(8) WF(9) WF(10) WF(11) WF(12) WF(13) WF(14) WF(15) WF(16) WF(17) WF(18) WF(19) WF(20) WF(21) WF(22) WF(23)
+static void (*const recf_fun[MAXTAB])(void) = { recf_0, recf_1, recf_2, recf_3, recf_4, recf_5, recf_6, recf_7, recf_8, recf_9, recf_10, recf_11, recf_12,
+  recf_13, recf_14, recf_15, recf_16, recf_17, recf_18, recf_19, recf_20, recf_21, recf_22, recf_23 };
+#define W(i) static void rec_##i(char *arg) { rec_call(i, arg); if (orig_fun[i]) orig_fun[i](arg); if (ev_on) { ev_sync(0); ev_log('C', i); } }
 W(0) W(1) W(2) W(3) W(4) W(5) W(6) W(7) W(8) W(9) W(10) W(11) W(12) W(13) W(14) W(15) W(16) W(17) W(18) W(19) W(20) W(21) W(22) W(23)
 static void (*const rec_fun[MAXTAB])(char *) = { rec_0, rec_1, rec_2, rec_3, rec_4, rec_5, rec_6, rec_7, rec_8, rec_9, rec_10, rec_11, rec_12,
   rec_13, rec_14, rec_15, rec_16, rec_17, rec_18, rec_19, rec_20, rec_21, rec_22, rec_23 };
@@ -101,6 +120,7 @@ static void hook_smtpcommands(void) {
   if (n + 1 > MAXTAB) { fprintf(stderr, "smtpcommands[] has more than %d entries\n", MAXTAB - 1); exit(99); }
   nsmtp = n;
   for (int i = 0; i <= n; i++) { orig_fun[i] = smtpcommands[i].fun; smtpcommands[i].fun = rec_fun[i]; }
+  for (int i = 0; i <= n; i++) { orig_flush[i] = smtpcommands[i].flush; if (orig_flush[i]) smtpcommands[i].flush = recf_fun[i]; }
 }
 static void put_calls(void) {
   fprintf(h_out, " %d", ncalls);
@@ -333,12 +353,14 @@ static int run_main(const unsigned char *in, size_t n, int chunk) {
   databytes = 0; timeout = 1200; in_env = 0; nsub = 0;
   in_p = in; in_n = n; in_pos = 0; in_chunk = chunk;
   hbuf_reset(&replyb); hbuf_reset(&callb); ncalls = 0;
+  hbuf_reset(&evb); ev_totalw = 0; ev_lastgen = 0; ev_on = 1;
   ipmeok = 1;
   int code = -1;
   h_exit_armed = 1;
   maps_live = 1;
   if (setjmp(h_jb) == 0) qmail_smtpd_main(); else code = h_exitcode;
   h_exit_armed = 0;
+  ev_sync(0); ev_on = 0;
   return code;
 }
 
@@ -350,6 +372,7 @@ static void s_case(int cfg, int chunk, const unsigned char *in, size_t n) {
   fprintf(h_out, " %d", nsub);
   for (int i = 0; i < nsub; i++) { fputc(' ', h_out); h_hex(sub_from[i].p, sub_from[i].n); fputc(' ', h_out); h_hex(sub_rcpt[i].p, sub_rcpt[i].n); }
   fputs(" D", h_out); put_calls();
+  fputs(" E ", h_out); if (evb.n) fwrite(evb.p, 1, evb.n, h_out); else fputc('-', h_out);
   fputc('\n', h_out);
 }
 
